@@ -83,10 +83,13 @@ def TAttr.stdYear (a : TAttr) : Option Nat :=
 
 /-- month and day after `_standardise_datetime_args`: a `doy` is converted with
 `datetime(year,1,1) + timedelta(doy-1)` and overrides month/day (the year is NOT
-adjusted when the date rolls over — as coded) -/
+adjusted when the date rolls over — as coded: `…/2018/367` is 2 January *2018*, `…/2018/000`
+is 31 December *2018*).  The day number `dby y + doy - 1` is exact in `Nat` unless
+`year ≤ 1 ∧ doy = 0`, where CPython raises `OverflowError` out of `find` (outside the
+model: the driver refuses such a directory, see `levelsSupported`). -/
 def TAttr.stdMonthDay (a : TAttr) : Option Nat × Option Nat :=
   match a.doy, a.stdYear with
-  | some n, some y => (some (monthOfDay (dby y + (n - 1))), some (domOfDay (dby y + (n - 1))))
+  | some n, some y => (some (monthOfDay (dby y + n - 1)), some (domOfDay (dby y + n - 1)))
   | _, _ => (a.month, a.day)
 
 /-- `_check_placeholders(attr, start, end)` with `start`, `end` already truncated -/
